@@ -220,6 +220,12 @@ where
 
     // ---- run-end monitors ----------------------------------------------------------------
     let tname = case.kind.name();
+    // C05 holds for whatever the caller is left with, also after a run that ended with an error
+    // (the step audits only see the steps that succeeded)
+    if !matches!(report.result, RunResult::Panic(_) | RunResult::Ok) {
+        Obs::<P>::new(case.clone(), data.clone()).audit_objectives(problem, &state, "the failed run", &mut d);
+        bump(&mut d.counters, "probe:state audited after a run that ended with an error", 1);
+    }
     if !matches!(report.result, RunResult::Panic(_)) {
         let evals = state.try_get_value::<Evaluations>().ok();
         let injected_fault = !matches!(case.fault, TFault::None | TFault::ExtremeDraw { .. });
@@ -305,6 +311,14 @@ where
             RunResult::Panic(p) => d.violate("C18", "pso-unaligned-collections-panic", format!("{tname}: {p}")),
             RunResult::Err(_) if !d.injected => d.violate("C16", format!("run-failed template={tname} kind=error"), format!("{tname}: run failed before the injected resize")),
             RunResult::Err(_) => d.probe("swarm update refused unaligned collections"),
+            _ => {}
+        }
+    } else if case.kind == Kind::FailMutation {
+        // the mutation's own validation error is the expected end of these runs
+        match &report.result {
+            RunResult::Err(e) if e.contains("injected: scaled coordinate") => bump(&mut d.counters, "fault:user-mutation-failed-after-modifying", 1),
+            RunResult::Err(e) => d.violate("C16", format!("run-failed template={tname} kind=error"), format!("{tname}: run returned Err: {}", e.chars().take(160).collect::<String>())),
+            RunResult::Panic(p) => d.violate("C16", format!("run-failed template={tname} kind=panic"), format!("{tname}: run panicked: {p}")),
             _ => {}
         }
     } else if !matches!(case.fault, TFault::NoEvaluator | TFault::WrongEvaluatorId | TFault::StepFail(_)) {
